@@ -365,12 +365,65 @@ func c13GenDoc0(t *rapid.T) c13Case {
 			}
 		}
 		walk(doc)
+		// the elements that stand for containers and list entries, with their schema nodes
+		type holderEl struct {
+			x *dm.XNode
+			d *dm.Node
+		}
+		var holders []holderEl
+		var pair func(x *dm.XNode, n *dm.Node)
+		pair = func(x *dm.XNode, n *dm.Node) {
+			for _, ch := range x.Children {
+				if d := n.Child(ch.Name); d != nil && (d.Kind == "container" || d.Kind == "list") {
+					holders = append(holders, holderEl{ch, d})
+					pair(ch, d)
+				}
+			}
+		}
+		pair(doc, root)
 		nm := rapid.IntRange(1, 2).Draw(t, "nmut")
 		for i := 0; i < nm && len(all) > 0; i++ {
 			x := all[rapid.IntRange(0, len(all)-1).Draw(t, "pos")]
-			mut := rapid.SampledFrom([]string{"text-in-container", "child-in-leaf", "rename", "duplicate", "drop-children", "garbage-text", "nest-self"}).Draw(t, "mut")
+			mut := rapid.SampledFrom([]string{"text-in-container", "child-in-leaf", "rename", "duplicate", "drop-children", "garbage-text", "nest-self", "scalar-for-holder", "entry-without-key"}).Draw(t, "mut")
 			c.Mutation = "xml-" + mut
+			if i > 0 {
+				c.Expect = "" // combined mutations: only totality is asserted
+			}
 			switch mut {
+			case "scalar-for-holder":
+				// a scalar where a container or a list is declared
+				if len(holders) == 0 {
+					c.Mutation = "xml-none"
+					continue
+				}
+				h := holders[rapid.IntRange(0, len(holders)-1).Draw(t, "holder")]
+				h.x.Children, h.x.Text = nil, "5"
+				if i == 0 {
+					c.Expect = "error"
+				}
+			case "entry-without-key":
+				var entries []holderEl
+				for _, h := range holders {
+					if h.d.Kind == "list" && len(h.d.Keys) > 0 {
+						entries = append(entries, h)
+					}
+				}
+				if len(entries) == 0 {
+					c.Mutation = "xml-none"
+					continue
+				}
+				h := entries[rapid.IntRange(0, len(entries)-1).Draw(t, "entry")]
+				kn := h.d.Keys[rapid.IntRange(0, len(h.d.Keys)-1).Draw(t, "key")]
+				var kept []*dm.XNode
+				for _, ch := range h.x.Children {
+					if ch.Name != kn {
+						kept = append(kept, ch)
+					}
+				}
+				h.x.Children = kept
+				if i == 0 {
+					c.Expect = "error"
+				}
 			case "text-in-container":
 				x.Text = "stray text"
 			case "child-in-leaf":
@@ -391,7 +444,7 @@ func c13GenDoc0(t *rapid.T) c13Case {
 		c.Text = renderX(doc)
 		if rapid.IntRange(0, 4).Draw(t, "truncate") == 0 {
 			c.Text = c.Text[:rapid.IntRange(0, len(c.Text)).Draw(t, "cut")]
-			c.Mutation = "xml-truncate"
+			c.Mutation, c.Expect = "xml-truncate", ""
 		}
 		return c
 	}
